@@ -47,6 +47,18 @@ def check_program(L: harness.Loaded, prog: Dict[str, Any], part: Part) -> None:
     spec_settable = {p["name"] for p in prog["params"] if p["t"] in SETTABLE}
     if free != spec_settable:
         part.violation(f"C08/{tag}/free-parameters-differ", base_case, f"reported free {sorted(free)}, settable by description {sorted(spec_settable)}")
+    # the same two accessors on the structures the message uses: they are the parameter-level flags, nothing else
+    for p_ in msg.parameters:
+        st = getattr(p_, "dop", None)
+        if st is not None and hasattr(st, "free_parameters") and hasattr(st, "parameters"):
+            part.count("structure_accessor_checks")
+            f1 = [q.short_name for q in st.free_parameters]
+            f2 = [q.short_name for q in st.parameters if q.is_settable]
+            r1 = [q.short_name for q in st.required_parameters]
+            r2 = [q.short_name for q in st.parameters if q.is_required]
+            if f1 != f2 or r1 != r2:
+                part.violation(f"C08/{tag}/structure-accessors-disagree-with-parameter-flags", base_case,
+                               f"structure {st.short_name}: free_parameters {f1} vs settable {f2}; required_parameters {r1} vs required {r2}")
     single_simple = len(prog["params"]) == 1 and prog["params"][0]["t"] == "VALUE" and \
         L.interp.dops[prog["params"][0]["dop"]].get("kind", "dop") == "dop" and \
         L.interp.dops[prog["params"][0]["dop"]]["dct"].get("mask") is None  # (masked-out bits belong to the object but are not claimed)
@@ -62,6 +74,21 @@ def check_program(L: harness.Loaded, prog: Dict[str, Any], part: Part) -> None:
         case = {"program": prog_case(prog), "values": jval(values)}
         pdu, exc, _ = harness.odx_encode(msg, values, request)
         if exc is not None:
+            # a valid assignment (the reference accepts it) that leaves out only parameters reported as NOT required must
+            # encode: otherwise one of the omitted parameters is needed although it is not reported as required
+            omitted = spec_settable - set(values)
+            if omitted and not (omitted & required):
+                try:
+                    L.interp.encode(prog["pid"], values, request)
+                    ref_ok = True
+                except (refodx.Reject, refodx.DontCare):
+                    ref_ok = False
+                except Exception:
+                    ref_ok = False
+                if ref_ok:
+                    part.violation(f"C08/{tag}/not-required-but-needed", case,
+                                   f"{show(values)} is valid and omits only {sorted(omitted)} (none reported required), but encoding fails: "
+                                   f"{type(exc).__name__}: {str(exc)[:100]}")
             continue
         part.count("accepted")
         part.add("nontrivial", digest((prog["tags"], len(pdu), static)))
